@@ -380,3 +380,110 @@ Proof.
   intros k a b H. unfold ideal_mac in H. inversion H as [E].
   apply app_inv_head in E. apply enc_macin_inj. exact E.
 Qed.
+
+(* ---- the client oracle holds for the model on all inputs ---- *)
+(* the MAC the harness recomputes for a datagram: for its first authenticator option *)
+Definition recomputed_mac (mac : bytes -> macin -> bytes) (k : bytes) (q : rx) : bytes :=
+  match find_opt OPT_AUTH (rx_opts q) with Some o => mac k (macin_rx o q) | None => [] end.
+
+(* slayers decodes extension headers in the fixed order hop-by-hop, end-to-end, L4 *)
+Definition wf_layers (q : rx) : Prop :=
+  existsb (fun l => l =? LT_E2E) (rx_layers q) = true ->
+  3 <= zlen (rx_layers q) /\ second_last_layer (rx_layers q) = LT_E2E.
+
+Definition accepted_of (r : cres) : option nat := match r with CAccept j _ => Some j | _ => None end.
+
+Lemma carries_auth_carries : forall spi q o, wf_layers q -> carries_auth spi q = Some o -> carries spi q o.
+Proof.
+  intros spi q o Hwf H. unfold carries_auth in H.
+  destruct (rx_ok q); [|discriminate]. simpl in H.
+  destruct (existsb _ (rx_layers q)) eqn:He; [|discriminate].
+  destruct (find_opt OPT_AUTH (rx_opts q)) as [o'|] eqn:Hf; [|discriminate].
+  destruct (zlen (o_data o') =? auth_opt_data_len) eqn:H1; [|discriminate]. simpl in H.
+  destruct (opt_spi o' =? spi) eqn:H2; [|discriminate]. simpl in H.
+  destruct (opt_algo o' =? auth_algorithm) eqn:H3; [|discriminate].
+  inversion H; subst. destruct (Hwf He) as [Ha Hb].
+  apply Z.eqb_eq in H1, H2, H3. unfold carries. tauto.
+Qed.
+
+Lemma cli_response_clause : forall mac c k rs (auth : bool),
+  c_key c = (if auth then Some k else None) ->
+  Forall (fun r => wf_layers (fst r)) rs ->
+  match accepted_of (client_run mac c false 0 rs) with
+  | Some i =>
+      match nth_error (map (fun r => (fst r, recomputed_mac mac k (fst r))) rs) i with
+      | Some (q, m) =>
+          match carries_auth spi_server q with
+          | Some a => if auth then bytes_eqb m (opt_mac a) else true
+          | None => true
+          end
+      | None => false
+      end
+  | None => true
+  end = true.
+Proof.
+  intros mac c k rs auth Hk Hwf.
+  destruct (client_run mac c false 0 rs) as [j a| |] eqn:Hr; simpl; try reflexivity.
+  destruct (bad_mac_never_accepted mac c rs false 0%nat j a Hr) as [q [n [Hn Hp]]].
+  replace (j - 0)%nat with j in Hn by lia.
+  rewrite nth_error_map, Hn. simpl.
+  destruct (carries_auth spi_server q) as [o|] eqn:Hc; [|reflexivity].
+  destruct auth; [|reflexivity].
+  assert (Hw : wf_layers q).
+  { rewrite Forall_forall in Hwf. apply nth_error_In in Hn. exact (Hwf _ Hn). }
+  pose proof (carries_auth_carries _ _ _ Hw Hc) as Hcar.
+  rewrite (Hp k o Hk Hcar). unfold recomputed_mac.
+  destruct Hcar as [_ [_ [Hf _]]]. rewrite Hf. apply bytes_eqb_refl.
+Qed.
+
+(* the request of the model client passes the request clause of the oracle *)
+Lemma cli_request_clause : forall mac c k h sp dp pl (auth : bool),
+  (forall k m, zlen (mac k m) = 16) ->
+  c_key c = (if auth then Some k else None) ->
+  let req := deliver (client_request mac c h sp dp pl) true in
+  (if auth then
+     match carries_auth spi_client req with
+     | Some a => bytes_eqb (recomputed_mac mac k req) (opt_mac a) && (zlen (recomputed_mac mac k req) =? 16)
+     | None => false
+     end
+   else match carries_auth spi_client req with Some _ => false | None => true end) = true.
+Proof.
+  intros mac c k h sp dp pl auth Hlen Hk req. unfold req, client_request. rewrite Hk.
+  destruct auth; [|reflexivity].
+  set (h0 := set_next h L4_UDP).
+  set (l := Udp sp dp (8 + zlen pl) pl).
+  set (tag := mac k (macin_of spi_client auth_algorithm [0;0;0;0;0;0] h0 (h_next h0) l)).
+  set (o := mkOpt OPT_AUTH (meta_bytes spi_client auth_algorithm ++ tag)).
+  assert (Hlo : zlen (o_data o) = auth_opt_data_len).
+  { unfold o. cbn [o_data]. unfold zlen. rewrite app_length, Nat2Z.inj_add.
+    change (Z.of_nat (length tag)) with (zlen tag). unfold tag. rewrite (Hlen k _). reflexivity. }
+  unfold carries_auth.
+  change (rx_ok (deliver (mkTx (set_next h0 E2E_CLASS) (Some [o]) l) true)) with true.
+  change (rx_layers (deliver (mkTx (set_next h0 E2E_CLASS) (Some [o]) l) true)) with [LT_SCION; LT_E2E; LT_UDP].
+  change (existsb (fun l0 => l0 =? LT_E2E) [LT_SCION; LT_E2E; LT_UDP]) with true.
+  change (rx_opts (deliver (mkTx (set_next h0 E2E_CLASS) (Some [o]) l) true)) with [o].
+  cbn [andb]. change (find_opt OPT_AUTH [o]) with (Some o). cbv beta iota.
+  rewrite Hlo, Z.eqb_refl.
+  change (opt_spi o =? spi_client) with true. change (opt_algo o =? auth_algorithm) with true. cbn [andb].
+  unfold recomputed_mac.
+  change (rx_opts (deliver (mkTx (set_next h0 E2E_CLASS) (Some [o]) l) true)) with [o].
+  change (find_opt OPT_AUTH [o]) with (Some o). cbv beta iota.
+  change (macin_rx o (deliver (mkTx (set_next h0 E2E_CLASS) (Some [o]) l) true))
+    with (macin_of spi_client auth_algorithm [0;0;0;0;0;0] h0 (h_next h0) l).
+  fold tag. change (opt_mac o) with tag. rewrite bytes_eqb_refl. unfold tag. rewrite (Hlen k _). reflexivity.
+Qed.
+
+Lemma cli_oracle_on_model : forall mac c k h sp dp pl rs (auth : bool),
+  (forall k m, zlen (mac k m) = 16) ->
+  c_key c = (if auth then Some k else None) ->
+  Forall (fun r => wf_layers (fst r)) rs ->
+  let req := deliver (client_request mac c h sp dp pl) true in
+  C13_cli_ok auth req (recomputed_mac mac k req)
+    (map (fun r => (fst r, recomputed_mac mac k (fst r))) rs)
+    (accepted_of (client_run mac c false 0 rs)) = true.
+Proof.
+  intros mac c k h sp dp pl rs auth Hlen Hk Hwf req. subst req. unfold C13_cli_ok.
+  pose proof (cli_request_clause mac c k h sp dp pl auth Hlen Hk) as H1. cbv zeta in H1.
+  pose proof (cli_response_clause mac c k rs auth Hk Hwf) as H2.
+  rewrite H1. cbn [andb]. exact H2.
+Qed.
